@@ -7,6 +7,7 @@ import Got.Lemmas.DiscWheel
 import Got.Lemmas.DiscWaitClose
 import Got.Lemmas.DiscCache
 import Got.Lemmas.DiscTaskQ
+import Got.Lemmas.DiscAnts
 /-
 C18 — goroutine-safe APIs are free of data races (publication discipline).
 
@@ -128,6 +129,24 @@ theorem C18_taskq_second_do_rejected :
     accepts (Got.Model.TaskQEvents.resultEvents 0 (Got.Model.TaskQ.init 1) Got.Lemmas.DiscTaskQ.redoActs) = false ∧
     accepts (Got.Model.TaskQEvents.resultEvents 0 (Got.Model.TaskQ.init 1) Got.Lemmas.DiscTaskQ.resendActs) = false :=
   ⟨Got.Lemmas.DiscTaskQ.second_do_rejected, Got.Lemmas.DiscTaskQ.resend_rejected⟩
+
+/-- ants: `taskCallback.result/err` of every task — one write per attempt by whichever side wins the per-attempt
+    CAS, `close(doneChan)` → dispatcher's receive when the inner worker won, the dispatcher's reads between
+    attempts, `Done` → clients' `Wait` (events from the C07/C08 model of the CURRENT code extended by client Get
+    actions; every execution, every task). -/
+theorem C18_ants_result_race_free (c : Got.Model.Ants.Cfg) (hc : c.old = false)
+    (acts : List Got.Model.AntsEvents.XAct) (hraw : ∀ x, x ∈ acts → x.isRaw = false) (k : Nat) :
+    RaceFree (Got.Model.AntsEvents.resultEvents k c Got.Model.Ants.init acts) :=
+  Got.Lemmas.DiscAnts.result_raceFree c hc acts hraw k
+
+/-- negative controls on the ants model: a client read without `Wait` (the old `Err()`), the old torn schedule and
+    the old unordered double write are rejected. (The old *empty* result is a lost outcome, not a race.) -/
+theorem C18_ants_controls :
+    accepts (Got.Model.AntsEvents.resultEvents 0 { N := 1 } Got.Model.Ants.init Got.Lemmas.DiscAnts.rawActs) = false ∧
+    accepts (Got.Model.AntsEvents.resultEvents 0 { N := 1, old := true } Got.Model.Ants.init Got.Lemmas.DiscAnts.oldTornActs) = false ∧
+    accepts (Got.Model.AntsEvents.resultEvents 0 { N := 1, old := true } Got.Model.Ants.init Got.Lemmas.DiscAnts.oldWriteWriteActs) = false :=
+  ⟨Got.Lemmas.DiscAnts.read_without_wait_rejected, Got.Lemmas.DiscAnts.old_torn_rejected,
+   Got.Lemmas.DiscAnts.old_write_write_rejected⟩
 
 /-- The pre-fix shapes are rejected by the discipline. -/
 theorem C18_old_ants_torn_rejected : accepts oldAntsTornTrace = false := by decide
